@@ -373,6 +373,44 @@ pub fn sites(tier: Tier) -> Vec<Site> {
             }));
     }
 
+    // 5a'. LONG double-byte sections: a page switch, 0..3 plain bytes, a run of 1..40 double-byte characters
+    // whose trail byte is a caret / looks like a lead byte / is ordinary, then something a scanner out of
+    // step would misread (a page letter, a real marker, an escaped caret, 8)
+    {
+        let mut cases: Vec<Vec<u8>> = vec![];
+        for l in ['J', 'S', 'K', 'H'] {
+            let mut cells: Vec<(&(u8, u8), &char)> = t.pages[&l].double.iter().collect();
+            cells.sort();
+            let pick = |f: &dyn Fn(u8, u8) -> bool| cells.iter().find(|((a, b), _)| f(*a, *b)).map(|((a, b), _)| vec![*a, *b]);
+            let units: Vec<Vec<u8>> = [
+                pick(&|_, b| b == b'^'),
+                pick(&|_, b| (0x81..=0x9f).contains(&b)),
+                pick(&|a, b| a >= 0xf0 && b == b'^'),
+                pick(&|_, b| b == b'A' || b == 0xa1),
+            ].into_iter().flatten().collect();
+            for pad in 0..=3usize {
+                for u in &units {
+                    for reps in 1..=40usize {
+                        for tail in [&b""[..], b"L", b"K", b"^L\xe9", b"^^", b"8", b"^8x"] {
+                            let mut b = vec![b'^', l as u8];
+                            b.extend(std::iter::repeat(b'x').take(pad));
+                            for _ in 0..reps { b.extend_from_slice(u); }
+                            b.extend_from_slice(tail);
+                            cases.push(b);
+                        }
+                    }
+                }
+            }
+        }
+        let cases = Arc::new(cases);
+        let tt = t.clone();
+        sites.push(Site::new("bytes-long-dbcs", cases.len() as u64,
+            "each double-byte page x 0..3 plain bytes x a run of 1..40 double-byte characters (trail byte 0x5E / lead-like / from the IBM extension rows / ordinary) x 7 tails (page letter, real marker, escaped caret, 8)",
+            move |i, acc| {
+                judge_bytes(&tt, &cases[i as usize], i, "bytes-long-dbcs", acc);
+            }));
+    }
+
     // 5b. a trail byte that looks like a caret must not be read as a marker (DBCS-aware scan)
     {
         let tt = t.clone();
